@@ -2,8 +2,8 @@ SPECIFICATION GSpec
 CONSTANTS
   Tables = {"asc3", "gap3", "mix4"}
   Shapes = {"rw", "w"}
-  Modes = {"echo", "none", "clamp", "raise"}
-  Setups = {"rw-echo", "w-none", "rw-clamp", "w-clamp", "rw-raise", "w-raise"}
+  Modes = {"echo", "none", "clamp", "raise", "crash"}
+  Setups = {"rw-echo", "w-none", "rw-clamp", "w-clamp", "rw-raise", "w-crash"}
   Xs = {0, 1, 2, 3, 4, 5, 6, 7, 8}
   XW = {0, 4, 8}
   WPos = {0, 2}
